@@ -972,3 +972,1153 @@ fn owner_of(oi: usize, oc: usize, idx: usize) -> Vec<Vec<u8>> {
         }
     }
 }
+
+// ===================================================================
+// cases
+// ===================================================================
+
+struct Env {
+    ctx: Arc<Ctx>,
+    stats: Stats,
+    types: Vec<TypeSpec>,
+    keys: Vec<KeyMat>,
+    times: Vec<(u32, u32, Period)>,
+    verbose: bool,
+}
+
+#[derive(Default)]
+struct Local {
+    counts: BTreeMap<String, u64>,
+    evals: u64,
+}
+impl Local {
+    fn c(&mut self, k: &str) {
+        *self.counts.entry(k.to_string()).or_insert(0) += 1;
+    }
+    fn merge(mut self, o: Local) -> Local {
+        for (k, v) in o.counts {
+            *self.counts.entry(k).or_insert(0) += v;
+        }
+        self.evals += o.evals;
+        self
+    }
+}
+
+#[derive(Clone, Debug, PartialEq)]
+struct Case {
+    ti: usize,
+    seq: Vec<usize>,
+    oi: usize,
+    oc: usize,
+    ttl: u32,
+    tm: usize,
+    si: usize,
+    class: u16,
+    ki: usize,
+    /// 1 = sign_rrset, 2 = SortedRecords + sign_sorted_rrset_in,
+    /// 3 = sign_sorted_zone_records
+    entry: u8,
+}
+
+impl Case {
+    fn json(&self, env: &Env) -> Value {
+        json!({"part": "sign", "type": env.types[self.ti].mn, "ti": self.ti, "seq": self.seq, "oi": self.oi, "oc": self.oc, "ttl": self.ttl,
+               "tm": self.tm, "si": self.si, "class": self.class, "ki": self.ki, "alg": env.keys[self.ki].alg, "entry": self.entry,
+               "owner": OWNERS[self.oi], "inception": env.times[self.tm].0, "expiration": env.times[self.tm].1})
+    }
+    fn from_json(v: &Value) -> Case {
+        let u = |k: &str| v[k].as_u64().unwrap_or(0) as usize;
+        Case {
+            ti: u("ti"),
+            seq: v["seq"].as_array().map(|a| a.iter().map(|x| x.as_u64().unwrap() as usize).collect()).unwrap_or_default(),
+            oi: u("oi"),
+            oc: u("oc"),
+            ttl: u("ttl") as u32,
+            tm: u("tm"),
+            si: u("si"),
+            class: u("class") as u16,
+            ki: u("ki"),
+            entry: u("entry") as u8,
+        }
+    }
+    fn hash(&self) -> u64 {
+        fnv(format!("{self:?}").as_bytes())
+    }
+    fn rrs(&self, env: &Env) -> Vec<RawRR> {
+        let spec = &env.types[self.ti];
+        self.seq
+            .iter()
+            .enumerate()
+            .map(|(i, &vi)| RawRR {
+                owner: owner_of(self.oi, self.oc, i),
+                rtype: spec.rtype,
+                class: self.class,
+                ttl: self.ttl,
+                fields: spec.values[vi].clone(),
+            })
+            .collect()
+    }
+}
+
+fn entry_name(e: u8) -> &'static str {
+    match e {
+        1 => "sign_rrset",
+        2 => "sorted+sign_sorted_rrset_in",
+        _ => "sign_sorted_zone_records",
+    }
+}
+
+/// Why the library and the RFC construction may legitimately be expected to
+/// differ for this input (used to keep violation classes narrow).
+fn cause_of(spec: &TypeSpec, rrs: &[RawRR]) -> String {
+    let mut canon: Vec<Vec<u8>> = rrs.iter().map(|r| r.rdata_canon(false)).collect();
+    let n = canon.len();
+    canon.sort();
+    canon.dedup();
+    let mut v = Vec::new();
+    if canon.len() != n {
+        v.push("input-has-duplicate-RRs");
+    }
+    if spec.lib_unknown_listed && rrs.iter().any(|r| r.has_upper_rdata_name()) {
+        v.push("RFC4034-6.2-listed-type-without-library-type");
+    }
+    if v.is_empty() {
+        "-".into()
+    } else {
+        v.join("+")
+    }
+}
+
+fn sig_len(alg: u8) -> usize {
+    match alg {
+        8 | 10 => 256,
+        13 | 15 => 64,
+        14 => 96,
+        _ => 0,
+    }
+}
+
+#[derive(Clone, Copy, PartialEq, Debug)]
+enum Form {
+    /// the very ZRec objects the signer saw (re-parsed, flattened)
+    Direct,
+    /// through an uncompressed message into validator records
+    Plain,
+    /// through a compressed message into validator records
+    Comp,
+    /// through a compressed message, flattened into zone records
+    CompFlat,
+}
+
+struct Signed {
+    rrs: Vec<RawRR>,
+    sig: SigF,
+    /// accepted reference octets (1 entry; 2 for NSEC until pinned)
+    refs: Vec<Vec<u8>>,
+}
+
+/// Run the signer for one case and check the RRSIG. Returns the signature
+/// when one was made and it passed the independent checks.
+fn sign_case(env: &Env, c: &Case, l: &mut Local) -> Option<Signed> {
+    let spec = &env.types[c.ti];
+    let key = &env.keys[c.ki];
+    let skey = &key.signers[c.si];
+    let (inc, exp, period) = env.times[c.tm];
+    let rrs = c.rrs(env);
+    let en = entry_name(c.entry);
+    l.evals += 1;
+    let msg = build_msg(&rrs, false);
+    let zrecs = match guard(|| lib_zrecs(&msg.bytes)) {
+        Ok(Ok(z)) if z.len() == rrs.len() => z,
+        other => {
+            let w = match other {
+                Ok(Ok(_)) => "count".to_string(),
+                Ok(Err(e)) => e,
+                Err(p) => p,
+            };
+            env.ctx.violation(
+                &format!("C12|input|type={}|library-cannot-read-generated-record", spec.mn),
+                &format!("the generated {} record set could not be turned into library records: {w}", spec.mn),
+                c.json(env),
+            );
+            return None;
+        }
+    };
+    let apex = lname(&labels("z"));
+    let res = guard(|| -> Result<Option<Record<LName, LSig>>, String> {
+        let (i, e) = (Timestamp::from(inc), Timestamp::from(exp));
+        match c.entry {
+            1 => {
+                let rrset = Rrset::new_from_owned(&zrecs).map_err(|e| format!("{e:?}"))?;
+                sign_rrset(skey, &rrset, i, e).map(Some).map_err(|e| format!("{e:?}"))
+            }
+            2 => {
+                let sorted: SortedRecords<LName, ZData> = SortedRecords::from(zrecs.clone());
+                let sets: Vec<_> = sorted.rrsets().collect();
+                if sets.len() != 1 {
+                    return Err(format!("SortedRecords split one RRset into {}", sets.len()));
+                }
+                let mut scratch = Vec::new();
+                sign_sorted_rrset_in(skey, &sets[0], i, e, &mut scratch).map(Some).map_err(|e| format!("{e:?}"))
+            }
+            _ => {
+                let sorted: SortedRecords<LName, ZData> = SortedRecords::from(zrecs.clone());
+                let cfg = GenerateRrsigConfig::new(i, e);
+                let mut v = sign_sorted_zone_records(&apex, sorted.owner_rrs(), &[skey], &cfg).map_err(|e| format!("{e:?}"))?;
+                if v.len() > 1 {
+                    return Err(format!("{} RRSIGs for one RRset and one key", v.len()));
+                }
+                Ok(v.pop())
+            }
+        }
+    });
+    let rec = match res {
+        Err(p) => {
+            env.ctx.violation(&format!("C12|{en}|panic|{}", panic_class(&p)), &format!("signer panicked: {p}"), c.json(env));
+            return None;
+        }
+        Ok(Err(e)) => {
+            let kind = e.split('(').next().unwrap_or("").to_string();
+            if spec.rtype == 46 && kind == "RrsigRrsMustNotBeSigned" {
+                l.c("signer:rrsig-rrset-refused");
+                return None;
+            }
+            if period != Period::Valid && kind == "InvalidSignatureValidityPeriod" {
+                l.c(&format!("signer:period-{period:?}-refused"));
+                return None;
+            }
+            env.ctx.violation(
+                &format!("C12|{en}|sign-error|{kind}|period={period:?}"),
+                &format!("signer returned {e} for a signable RRset ({} at {}, inception {inc}, expiration {exp})", spec.mn, OWNERS[c.oi]),
+                c.json(env),
+            );
+            return None;
+        }
+        Ok(Ok(None)) => {
+            l.c("signer:zone-walk-skipped-rrset");
+            return None;
+        }
+        Ok(Ok(Some(r))) => r,
+    };
+    l.c(&format!("signer:signed:{en}"));
+    if period != Period::Valid {
+        l.c(&format!("signer:period-{period:?}-signed"));
+    }
+    if spec.rtype == 46 {
+        l.c("signer:rrsig-rrset-signed");
+    }
+    let sig = sigf_of(rec.data());
+    // ---- RRSIG RR and fields (RFC 4035 §2.2, RFC 4034 §3.1)
+    let want_labels = {
+        let o = &rrs[0].owner;
+        (if o.first().map(|x| x.as_slice()) == Some(b"*") { o.len() - 1 } else { o.len() }) as u8
+    };
+    let mut bad: Vec<(&str, String)> = Vec::new();
+    if lower_labels(&name_labels(rec.owner())) != lower_labels(&rrs[0].owner) {
+        bad.push(("rr-owner", format!("{} vs {}", rec.owner(), name_text(&rrs[0].owner))));
+    }
+    if rec.class().to_int() != c.class {
+        bad.push(("rr-class", format!("{}", rec.class())));
+    }
+    if rec.ttl().as_secs() != c.ttl {
+        bad.push(("rr-ttl", format!("{}", rec.ttl().as_secs())));
+    }
+    if sig.tc != spec.rtype {
+        bad.push(("type-covered", format!("{}", sig.tc)));
+    }
+    if sig.alg != key.alg {
+        bad.push(("algorithm", format!("{}", sig.alg)));
+    }
+    if sig.labels != want_labels {
+        bad.push(("labels", format!("{} expected {want_labels}", sig.labels)));
+    }
+    if sig.ottl != c.ttl {
+        bad.push(("original-ttl", format!("{}", sig.ottl)));
+    }
+    if sig.exp != exp || sig.inc != inc {
+        bad.push(("validity", format!("{}..{}", sig.inc, sig.exp)));
+    }
+    if sig.tag != keytag_app_b(&key.rdata) {
+        bad.push(("key-tag", format!("{} expected {}", sig.tag, keytag_app_b(&key.rdata))));
+    }
+    if lower_labels(&sig.signer) != lower_labels(&labels(SIGNER_NAMES[c.si])) {
+        bad.push(("signer-name", name_text(&sig.signer)));
+    }
+    if sig.sig.len() != sig_len(key.alg) {
+        bad.push(("signature-length", format!("{}", sig.sig.len())));
+    }
+    for (f, w) in &bad {
+        env.ctx.violation(
+            &format!("C12|{en}|rrsig-field|{f}"),
+            &format!("RRSIG made for {} at {} has wrong {f}: {w}", spec.mn, name_text(&rrs[0].owner)),
+            c.json(env),
+        );
+    }
+    if !bad.is_empty() {
+        return None;
+    }
+    // ---- the signature must be over the RFC octets (ring called directly)
+    let mut refs = vec![ref_octets(&sig, &rrs, false).expect("labels <= owner labels")];
+    if rfc_canon(spec.rtype) == Canon::Open {
+        let alt = ref_octets(&sig, &rrs, true).unwrap();
+        if alt != refs[0] {
+            refs.push(alt);
+        }
+    }
+    let good: Vec<Vec<u8>> = refs.iter().filter(|r| ring_verify(key.alg, &key.pubkey, r, &sig.sig)).cloned().collect();
+    if good.is_empty() {
+        env.ctx.violation(
+            &format!("C12|{en}|signature-not-over-RFC4034-3.1.8.1-octets|{}", cause_of(spec, &rrs)),
+            &format!(
+                "the signature made for {} {:?} at {} does not verify (ring, directly) over the independently constructed signed data {}",
+                spec.mn,
+                rrs.iter().map(|r| hex(&r.rdata_plain())).collect::<Vec<_>>(),
+                name_text(&rrs[0].owner),
+                hex(&refs[0])
+            ),
+            c.json(env),
+        );
+        return None;
+    }
+    if refs.len() > 1 {
+        l.c(if good[0] == refs[0] { "nsec:signed-per-RFC6840(case kept)" } else { "nsec:signed-per-RFC4034(lower-cased)" });
+    }
+    env.stats.distinct(c.hash());
+    Some(Signed { rrs, sig, refs: good })
+}
+
+// ===================================================================
+// legitimate resolver-side transformations
+// ===================================================================
+
+fn perms(n: usize) -> Vec<Vec<usize>> {
+    match n {
+        1 => vec![vec![0]],
+        2 => vec![vec![0, 1], vec![1, 0]],
+        3 => vec![vec![0, 1, 2], vec![0, 2, 1], vec![1, 0, 2], vec![1, 2, 0], vec![2, 0, 1], vec![2, 1, 0]],
+        _ => vec![(0..n).collect()],
+    }
+}
+
+fn map_rdata_names(rr: &RawRR, f: &dyn Fn(&[Vec<u8>]) -> Vec<Vec<u8>>) -> RawRR {
+    let mut r = rr.clone();
+    for fl in r.fields.iter_mut() {
+        if let F::N(n) = fl {
+            *n = f(n);
+        }
+    }
+    r
+}
+
+fn wildcard_expand(rr: &RawRR, with: &[&[u8]]) -> RawRR {
+    let mut r = rr.clone();
+    let mut o: Vec<Vec<u8>> = with.iter().map(|x| x.to_vec()).collect();
+    o.extend_from_slice(&rr.owner[1..]);
+    r.owner = o;
+    r
+}
+
+fn transforms(s: &Signed) -> Vec<(String, Vec<RawRR>, SigF, Form)> {
+    let mut out: Vec<(String, Vec<RawRR>, SigF, Form)> = Vec::new();
+    let rrs = &s.rrs;
+    let sig = &s.sig;
+    let n = rrs.len();
+    let lower_type = rfc_canon(rrs[0].rtype) == Canon::Lower;
+    out.push(("identity".into(), rrs.clone(), sig.clone(), Form::Direct));
+    // every permutation
+    let mut seen: Vec<Vec<RawRR>> = Vec::new();
+    for p in perms(n) {
+        let v: Vec<RawRR> = p.iter().map(|&i| rrs[i].clone()).collect();
+        if !seen.contains(&v) {
+            seen.push(v.clone());
+            out.push(("permute".into(), v, sig.clone(), Form::Plain));
+        }
+    }
+    // duplicate removal (RFC 2181 §5: duplicates are suppressed)
+    {
+        let mut v: Vec<RawRR> = Vec::new();
+        for r in rrs {
+            if !v.iter().any(|x| x.rdata_canon(false) == r.rdata_canon(false)) {
+                v.push(r.clone());
+            }
+        }
+        if v.len() != n {
+            out.push(("dedup".into(), v, sig.clone(), Form::Plain));
+        }
+    }
+    // owner case
+    for (lab, f) in [("owner-upper", upper_labels as fn(&[Vec<u8>]) -> Vec<Vec<u8>>), ("owner-lower", lower_labels)] {
+        let v: Vec<RawRR> = rrs.iter().map(|r| RawRR { owner: f(&r.owner), ..r.clone() }).collect();
+        out.push((lab.into(), v, sig.clone(), Form::Plain));
+    }
+    // RDATA name case (only where §6.2 canonicalises them)
+    if lower_type && rrs.iter().any(|r| r.fields.iter().any(|f| matches!(f, F::N(_)))) {
+        out.push(("rdata-names-upper".into(), rrs.iter().map(|r| map_rdata_names(r, &upper_labels)).collect(), sig.clone(), Form::Plain));
+        out.push(("rdata-names-lower".into(), rrs.iter().map(|r| map_rdata_names(r, &lower_labels)).collect(), sig.clone(), Form::Plain));
+    }
+    // signer name case
+    out.push(("signer-upper".into(), rrs.clone(), SigF { signer: upper_labels(&sig.signer), ..sig.clone() }, Form::Plain));
+    out.push(("signer-lower".into(), rrs.clone(), SigF { signer: lower_labels(&sig.signer), ..sig.clone() }, Form::Plain));
+    // TTL decrement
+    let t = rrs[0].ttl;
+    let mut ttls = vec![];
+    if t > 0 {
+        ttls = vec![t - 1, t / 2, 0];
+        ttls.dedup();
+    }
+    for nt in ttls {
+        out.push((format!("ttl-decrement"), rrs.iter().map(|r| RawRR { ttl: nt, ..r.clone() }).collect(), sig.clone(), Form::Plain));
+    }
+    // wildcard expansion
+    let wild = rrs[0].owner.first().map(|x| x.as_slice()) == Some(b"*");
+    if wild {
+        out.push(("wildcard-expand-1".into(), rrs.iter().map(|r| wildcard_expand(r, &[b"x"])).collect(), sig.clone(), Form::Plain));
+        out.push(("wildcard-expand-2".into(), rrs.iter().map(|r| wildcard_expand(r, &[b"Q", b"y"])).collect(), sig.clone(), Form::Plain));
+    }
+    // compressed message
+    out.push(("compressed".into(), rrs.clone(), sig.clone(), Form::Comp));
+    let mut rev = rrs.clone();
+    rev.reverse();
+    out.push(("compressed-reversed".into(), rev.clone(), sig.clone(), Form::Comp));
+    out.push(("compressed-flattened".into(), rrs.clone(), sig.clone(), Form::CompFlat));
+    // everything at once
+    {
+        let mut v: Vec<RawRR> = rev
+            .iter()
+            .map(|r| {
+                let mut r = if lower_type { map_rdata_names(r, &upper_labels) } else { r.clone() };
+                if wild {
+                    r = wildcard_expand(&r, &[b"x"]);
+                }
+                r.owner = upper_labels(&r.owner);
+                r.ttl = r.ttl.saturating_sub(1);
+                r
+            })
+            .collect();
+        // and drop canonical duplicates
+        let mut w: Vec<RawRR> = Vec::new();
+        for r in v.drain(..) {
+            if !w.iter().any(|x| x.rdata_canon(false) == r.rdata_canon(false)) {
+                w.push(r);
+            }
+        }
+        out.push(("combined".into(), w, SigF { signer: upper_labels(&sig.signer), ..sig.clone() }, Form::Comp));
+    }
+    out
+}
+
+/// RFC 4035 §5.3.2/§5.3.4: expanded from a wildcard iff Labels < owner labels;
+/// the closest encloser is then the rightmost Labels labels.
+fn ref_closest_encloser(sig: &SigF, owner: &[Vec<u8>]) -> Option<Vec<Vec<u8>>> {
+    let k = sig.labels as usize;
+    if k < owner.len() {
+        Some(lower_labels(&owner[owner.len() - k..]))
+    } else {
+        None
+    }
+}
+
+struct LibOut {
+    octets: Vec<u8>,
+    verify: Result<(), String>,
+    wce: Option<Vec<Vec<u8>>>,
+}
+
+/// Hand the (transformed) RRset and RRSIG to the validation primitives.
+fn lib_validate(rrs: &[RawRR], sig: &SigF, form: Form, dnskey: &Dnskey<Bytes>) -> Result<LibOut, String> {
+    let n = rrs.len();
+    match form {
+        Form::Direct | Form::CompFlat => {
+            let m = build_msg(rrs, form == Form::CompFlat);
+            let mut recs = lib_zrecs(&m.bytes)?;
+            let lsig = lib_sig_from(sig);
+            let wce = lsig.wildcard_closest_encloser(&recs[0]).map(|n| lower_labels(&name_labels(&n)));
+            let octets = lib_signed_data(&lsig, &mut recs);
+            let verify = lsig.verify_signed_data(dnskey, &octets).map_err(|e| format!("{e:?}"));
+            Ok(LibOut { octets, verify, wce })
+        }
+        Form::Plain | Form::Comp => {
+            let mut all = rrs.to_vec();
+            all.push(sig.as_rr(&rrs[0].owner, rrs[0].class, rrs[0].ttl));
+            let m = build_msg(&all, form == Form::Comp);
+            let (mut recs, lsig) = lib_vrecs(&m.bytes, n, true)?;
+            let lsig = lsig.unwrap();
+            let wce = lsig.wildcard_closest_encloser(&recs[0]).map(|n| lower_labels(&name_labels(&n)));
+            let octets = lib_signed_data(&lsig, &mut recs);
+            let verify = lsig.verify_signed_data(dnskey, &octets).map_err(|e| format!("{e:?}"));
+            Ok(LibOut { octets, verify, wce })
+        }
+    }
+}
+
+fn check_transforms(env: &Env, c: &Case, s: &Signed, l: &mut Local) {
+    let spec = &env.types[c.ti];
+    let key = &env.keys[c.ki];
+    let cause = cause_of(spec, &s.rrs);
+    for (label, rrs_t, sig_t, form) in transforms(s) {
+        l.evals += 1;
+        l.c(&format!("transform:{label}"));
+        // harness self-check: a legitimate transformation does not change the
+        // reference octets
+        let open_lower = s.refs[0] != ref_octets(&s.sig, &s.rrs, false).unwrap();
+        let r = ref_octets(&sig_t, &rrs_t, open_lower).expect("labels fit");
+        assert!(r == s.refs[0], "harness: transformation {label} changed the reference octets");
+        let out = match guard(|| lib_validate(&rrs_t, &sig_t, form, &key.dnskey)) {
+            Err(p) => {
+                env.ctx.violation(
+                    &format!("C12|validate|panic|{}", panic_class(&p)),
+                    &format!("validation primitives panicked after '{label}': {p}"),
+                    json!({"part": "transform", "case": c.json(env), "transform": label}),
+                );
+                continue;
+            }
+            Ok(Err(e)) => {
+                env.ctx.violation(
+                    &format!("C12|validate|{label}|form={form:?}|records-unreadable"),
+                    &format!("library could not read the transformed records: {e}"),
+                    json!({"part": "transform", "case": c.json(env), "transform": label}),
+                );
+                continue;
+            }
+            Ok(Ok(o)) => o,
+        };
+        let replay = || json!({"part": "transform", "case": c.json(env), "transform": label, "rrs": rrs_t.iter().map(|r| r.json()).collect::<Vec<_>>(), "rrsig": sig_t.json()});
+        if !s.refs.contains(&out.octets) {
+            env.ctx.violation(
+                &format!("C12|signed_data|{label}|form={form:?}|octets-differ-from-RFC4034-3.1.8.1|{cause}"),
+                &format!(
+                    "signed_data for {} at {} after '{label}' = {} but the independent construction gives {}",
+                    spec.mn,
+                    name_text(&rrs_t[0].owner),
+                    hex(&out.octets),
+                    hex(&s.refs[0])
+                ),
+                replay(),
+            );
+        }
+        if let Err(e) = &out.verify {
+            env.ctx.violation(
+                &format!("C12|verify_signed_data|{label}|form={form:?}|legitimate-transformation-does-not-verify|{cause}"),
+                &format!("verify_signed_data = Err({e}) for {} at {} after the legitimate transformation '{label}'", spec.mn, name_text(&rrs_t[0].owner)),
+                replay(),
+            );
+        } else {
+            l.c("verify:ok-after-legit-transform");
+        }
+        let want = ref_closest_encloser(&sig_t, &rrs_t[0].owner);
+        if out.wce != want {
+            env.ctx.violation(
+                &format!("C12|wildcard_closest_encloser|{label}|expected={}|got={}", want.is_some(), out.wce.is_some()),
+                &format!(
+                    "wildcard_closest_encloser for owner {} labels {} = {:?}, RFC 4035 5.3.2 gives {:?}",
+                    name_text(&rrs_t[0].owner),
+                    sig_t.labels,
+                    out.wce.as_ref().map(|n| name_text(n)),
+                    want.as_ref().map(|n| name_text(n))
+                ),
+                replay(),
+            );
+        }
+        l.c(if want.is_some() { "wce:some" } else { "wce:none" });
+    }
+}
+
+// ===================================================================
+// fault enumeration: every single-bit flip
+// ===================================================================
+
+fn rr_field_class(off: usize, start: usize, owner_len: usize, rds: usize) -> &'static str {
+    let o = off - start;
+    if o < owner_len {
+        "rr-owner"
+    } else if o < owner_len + 2 {
+        "rr-type"
+    } else if o < owner_len + 4 {
+        "rr-class"
+    } else if o < owner_len + 8 {
+        "rr-ttl"
+    } else if off < rds {
+        "rr-rdlen"
+    } else {
+        "rr-rdata"
+    }
+}
+
+fn sig_field_class(o: usize, signer_len: usize) -> &'static str {
+    match o {
+        0..=1 => "sig-type-covered",
+        2 => "sig-algorithm",
+        3 => "sig-labels",
+        4..=7 => "sig-original-ttl",
+        8..=11 => "sig-expiration",
+        12..=15 => "sig-inception",
+        16..=17 => "sig-key-tag",
+        _ if o < 18 + signer_len => "sig-signer-name",
+        _ => "sig-signature",
+    }
+}
+
+/// Independent reading of a (possibly damaged) message: n RRs + the RRSIG.
+fn ref_read(msg: &[u8], n: usize, spec: &TypeSpec) -> Option<(Vec<RawRR>, SigF)> {
+    let m = wire::read_message(msg).ok()?;
+    if !m.pointers.is_empty() || m.sections[0].len() != n + 1 {
+        return None;
+    }
+    let mut rrs = Vec::new();
+    for r in &m.sections[0][..n] {
+        let fields = if r.rtype == spec.rtype { split_rdata(&spec.layout, &r.rdata)? } else { vec![F::B(r.rdata.clone())] };
+        rrs.push(RawRR { owner: r.owner.clone(), rtype: r.rtype, class: r.class, ttl: r.ttl, fields });
+    }
+    let s = &m.sections[0][n];
+    if s.rtype != 46 {
+        return None;
+    }
+    let sig = SigF::from_fields(&split_rdata(&[L::Fix(18), L::Name, L::Rest], &s.rdata)?)?;
+    Some((rrs, sig))
+}
+
+fn fault_case(env: &Env, c: &Case, l: &mut Local) {
+    let spec = &env.types[c.ti];
+    let key = &env.keys[c.ki];
+    let Some(s) = sign_case(env, c, l) else {
+        l.c("fault:base-not-signed");
+        return;
+    };
+    // what a resolver holds: the RRset without duplicates, and the RRSIG
+    let mut rrs: Vec<RawRR> = Vec::new();
+    for r in &s.rrs {
+        if !rrs.iter().any(|x| x.rdata_canon(false) == r.rdata_canon(false)) {
+            rrs.push(r.clone());
+        }
+    }
+    let n = rrs.len();
+    let open = rfc_canon(spec.rtype) == Canon::Open;
+    let open_lower = s.refs[0] != ref_octets(&s.sig, &s.rrs, false).unwrap();
+    let mut all = rrs.clone();
+    all.push(s.sig.as_rr(&rrs[0].owner, c.class, c.ttl));
+    let base = build_msg(&all, false);
+    // baseline
+    let base_out = match guard(|| lib_validate(&rrs, &s.sig, Form::Plain, &key.dnskey)) {
+        Ok(Ok(o)) if o.verify.is_ok() && s.refs.contains(&o.octets) => o,
+        _ => {
+            l.c("fault:baseline-does-not-verify");
+            return;
+        }
+    };
+    let ref0 = &s.refs[0];
+    let signer_len = name_wire(&s.sig.signer).len();
+    let fault_json = |target: &str, bit: usize| json!({"part": "fault", "case": c.json(env), "target": target, "bit": bit});
+    // ---- targets in the message: each RR entirely, the RRSIG RDATA
+    let mut ranges: Vec<(String, usize, usize, usize)> = Vec::new(); // (target, from, to, rr index)
+    for i in 0..n {
+        ranges.push((format!("rr{i}"), base.spans[i].0, base.spans[i].2, i));
+    }
+    ranges.push(("rrsig-rdata".into(), base.spans[n].1, base.spans[n].2, n));
+    for (target, from, to, idx) in &ranges {
+        for bit in 0..(to - from) * 8 {
+            l.evals += 1;
+            let off = from + bit / 8;
+            let fclass = if *idx < n {
+                rr_field_class(off, base.spans[*idx].0, name_wire(&rrs[*idx].owner).len(), base.spans[*idx].1)
+            } else {
+                sig_field_class(off - from, signer_len)
+            };
+            let mut m = base.bytes.clone();
+            m[off] ^= 0x80 >> (bit % 8);
+            // independent expectation
+            let rr = ref_read(&m, n, spec);
+            // Some(true): must verify; Some(false): must fail; None: either
+            let mut expect: Option<bool> = Some(false);
+            let mut ref_oct: Option<Vec<Vec<u8>>> = None;
+            if let Some((rrs_f, sig_f)) = &rr {
+                let proper = is_rrset(rrs_f, spec.rtype);
+                let o1 = ref_octets(sig_f, rrs_f, open_lower);
+                let same_sig = sig_f.sig == s.sig.sig;
+                let eq1 = o1.as_ref() == Some(ref0);
+                if open && proper {
+                    // the other reading of NSEC canonical form
+                    let o2 = ref_octets(sig_f, rrs_f, !open_lower);
+                    let base2 = ref_octets(&s.sig, &rrs, !open_lower);
+                    let eq2 = o2.is_some() && o2 == base2;
+                    expect = if eq1 == eq2 { Some(eq1 && same_sig) } else { None };
+                    if let (Some(a), Some(b)) = (o1.clone(), o2) {
+                        ref_oct = Some(vec![a, b]);
+                    }
+                } else {
+                    expect = Some(eq1 && same_sig);
+                    if proper {
+                        ref_oct = o1.clone().map(|a| vec![a]);
+                    }
+                }
+            }
+            // the library
+            let lib = guard(|| -> Result<LibOut, String> {
+                let (mut recs, lsig) = lib_vrecs(&m, n, true)?;
+                let lsig = lsig.unwrap();
+                let octets = lib_signed_data(&lsig, &mut recs);
+                let verify = lsig.verify_signed_data(&key.dnskey, &octets).map_err(|e| format!("{e:?}"));
+                Ok(LibOut { octets, verify, wce: None })
+            });
+            let out = match lib {
+                Err(p) => {
+                    env.ctx.violation(
+                        &format!("C12|fault|{fclass}|panic|{}", panic_class(&p)),
+                        &format!("panic while reading/validating after flipping bit {bit} of {target}: {p}"),
+                        fault_json(target, bit),
+                    );
+                    continue;
+                }
+                Ok(Err(_)) => {
+                    l.c(&format!("fault:{fclass}:unreadable-by-library"));
+                    continue;
+                }
+                Ok(Ok(o)) => o,
+            };
+            env.stats.distinct(fnv(format!("{c:?}|{target}|{bit}").as_bytes()));
+            if let Some(ro) = &ref_oct {
+                if !ro.contains(&out.octets) {
+                    env.ctx.violation(
+                        &format!("C12|signed_data|fault-variant|{fclass}|octets-differ-from-RFC4034-3.1.8.1"),
+                        &format!("after flipping bit {bit} of {target} ({fclass}) signed_data = {} but the independent construction gives {}", hex(&out.octets), hex(&ro[0])),
+                        fault_json(target, bit),
+                    );
+                }
+            }
+            match (rr.is_some(), expect, out.verify.is_ok()) {
+                (false, _, true) => {
+                    env.ctx.violation(
+                        &format!("C12|fault|{fclass}|malformed-for-reference-reader-but-verified"),
+                        &format!("flipping bit {bit} of {target} makes the message unreadable for the reference reader, yet the library verified it"),
+                        fault_json(target, bit),
+                    );
+                }
+                (false, _, false) => l.c(&format!("fault:{fclass}:ref-unreadable,lib-rejects")),
+                (true, Some(true), false) => {
+                    env.ctx.violation(
+                        &format!("C12|fault|{fclass}|signed-octets-identical-but-verification-failed"),
+                        &format!(
+                            "flipping bit {bit} of {target} ({fclass}) leaves the RFC 4034 signed octets and the signature unchanged, but verify_signed_data = {:?}",
+                            out.verify
+                        ),
+                        fault_json(target, bit),
+                    );
+                }
+                (true, Some(false), true) => {
+                    env.ctx.violation(
+                        &format!("C12|fault|{fclass}|altered-but-verified"),
+                        &format!("flipping bit {bit} of {target} ({fclass}) changes the signed octets or the signature, yet verify_signed_data = Ok"),
+                        fault_json(target, bit),
+                    );
+                }
+                (true, Some(true), true) => l.c(&format!("fault:{fclass}:same-octets,verifies")),
+                (true, Some(false), false) => l.c(&format!("fault:{fclass}:altered,rejected")),
+                (true, None, v) => l.c(&format!("fault:{fclass}:open(NSEC case),{}", if v { "verifies" } else { "rejected" })),
+            }
+        }
+    }
+    // ---- the DNSKEY: flags, protocol, algorithm, every public key bit
+    let kr = &key.rdata;
+    for bit in 0..kr.len() * 8 {
+        l.evals += 1;
+        let mut r = kr.clone();
+        r[bit / 8] ^= 0x80 >> (bit % 8);
+        let fclass = match bit / 8 {
+            0 | 1 => "dnskey-flags",
+            2 => "dnskey-protocol",
+            3 => "dnskey-algorithm",
+            _ => "dnskey-public-key",
+        };
+        let res = guard(|| {
+            let dk = Dnskey::new(u16::from_be_bytes([r[0], r[1]]), r[2], SecurityAlgorithm::from_int(r[3]), Bytes::copy_from_slice(&r[4..])).unwrap();
+            lib_sig_from(&s.sig).verify_signed_data(&dk, &base_out.octets).map_err(|e| format!("{e:?}"))
+        });
+        env.stats.distinct(fnv(format!("{c:?}|dnskey|{bit}").as_bytes()));
+        match res {
+            Err(p) => {
+                env.ctx.violation(
+                    &format!("C12|fault|{fclass}|panic|{}", panic_class(&p)),
+                    &format!("panic verifying with DNSKEY bit {bit} flipped: {p}"),
+                    fault_json("dnskey", bit),
+                );
+            }
+            Ok(v) => {
+                if bit / 8 >= 3 {
+                    if v.is_ok() {
+                        env.ctx.violation(
+                            &format!("C12|fault|{fclass}|altered-but-verified"),
+                            &format!("verification succeeded with bit {bit} of the DNSKEY RDATA ({fclass}) flipped"),
+                            fault_json("dnskey", bit),
+                        );
+                    } else {
+                        l.c(&format!("fault:{fclass}:altered,rejected"));
+                    }
+                } else {
+                    // flags/protocol are not key material and not looked at by
+                    // the primitives; key selection (key tag) is the caller's
+                    l.c(&format!("fault:{fclass}:informational,{}", if v.is_ok() { "verifies" } else { "rejected" }));
+                }
+            }
+        }
+    }
+    l.c("fault:cases-completed");
+}
+
+// ===================================================================
+// key tag and DS digest
+// ===================================================================
+
+fn keytag_checks(env: &Env, all_keys: &[KeyMat], quick: bool, l: &mut Local) {
+    // the fixed keys: file name tag, library tag, App. B tag
+    for k in all_keys {
+        l.evals += 1;
+        let want = keytag_app_b(&k.rdata);
+        let got = guard(|| k.dnskey.key_tag());
+        if want != k.tag_file {
+            panic!("harness: App. B key tag {want} != tag in file name {}", k.tag_file);
+        }
+        if got.as_ref().ok() != Some(&want) {
+            env.ctx.violation("C12|key_tag|fixed-key|differs-from-RFC4034-AppB", &format!("alg {} key: key_tag() = {got:?}, App. B = {want}", k.alg), json!({"part": "keytag", "alg": k.alg}));
+        }
+        for sk in &k.signers {
+            let got = guard(|| (sk.dnskey().key_tag(), sk.dnskey().public_key().to_vec(), sk.dnskey().flags(), sk.algorithm().to_int()));
+            if got != Ok((want, k.pubkey.clone(), k.flags, k.alg)) {
+                env.ctx.violation("C12|signing-key|dnskey|differs-from-key-file", &format!("alg {}: SigningKey::dnskey() does not reproduce the key file", k.alg), json!({"part": "keytag", "alg": k.alg}));
+            }
+        }
+        l.c("keytag:fixed-keys");
+    }
+    // synthetic DNSKEY RDATA: every key over an octet alphabet to a length
+    let alpha: &[u8] = if quick { &[0x00, 0x01, 0xFF] } else { &[0x00, 0x01, 0x7F, 0x80, 0xFF] };
+    let maxlen = if quick { 4 } else { 5 };
+    let mut keys: Vec<Vec<u8>> = Vec::new();
+    for n in 0..=maxlen {
+        let mut buf = Vec::new();
+        for i in 0..pow(alpha.len(), n) {
+            nth_string(alpha, n, i, &mut buf);
+            keys.push(buf.clone());
+        }
+    }
+    for n in [255usize, 256, 257, 1024, 4097, 65531] {
+        keys.push(vec![0xFF; n]);
+        keys.push((0..n).map(|i| if i % 2 == 0 { 0xFF } else { 0x00 }).collect());
+    }
+    for key in &keys {
+        for flags in [0u16, 256, 257, 0xFFFF] {
+            for proto in [3u8, 255] {
+                for alg in [1u8, 5, 8, 13, 15, 255] {
+                    l.evals += 1;
+                    let mut rd = flags.to_be_bytes().to_vec();
+                    rd.push(proto);
+                    rd.push(alg);
+                    rd.extend_from_slice(key);
+                    let want = if alg == 1 {
+                        // App. B.1: most significant 16 of the least significant 24 bits of the modulus
+                        if key.len() < 3 {
+                            l.c("keytag:alg1-short(undefined)");
+                            continue;
+                        }
+                        u16::from_be_bytes([key[key.len() - 3], key[key.len() - 2]])
+                    } else {
+                        keytag_app_b(&rd)
+                    };
+                    let got = guard(|| Dnskey::new(flags, proto, SecurityAlgorithm::from_int(alg), key.clone()).unwrap().key_tag());
+                    env.stats.distinct(fnv(&rd));
+                    match got {
+                        Ok(g) if g == want => l.c("keytag:synthetic-agree"),
+                        Ok(g) => {
+                            env.ctx.violation(
+                                &format!("C12|key_tag|synthetic|alg1={}|differs-from-RFC4034-AppB", alg == 1),
+                                &format!("key_tag() of DNSKEY RDATA {} = {g}, App. B = {want}", hex(&rd[..rd.len().min(40)])),
+                                json!({"part": "keytag", "rdata": hex(&rd)}),
+                            );
+                        }
+                        Err(p) => {
+                            env.ctx.violation(&format!("C12|key_tag|panic|{}", panic_class(&p)), &format!("key_tag() panicked: {p}"), json!({"part": "keytag", "rdata": hex(&rd)}));
+                        }
+                    }
+                }
+            }
+        }
+    }
+}
+
+fn ds_checks(env: &Env, all_keys: &[KeyMat], l: &mut Local) {
+    use ring::digest as rd;
+    let owners = ["test", "TEST", "tEsT", "z", "a.Z", "*.Sub.Test", "."];
+    for k in all_keys {
+        for o in owners {
+            let ol = labels(o);
+            for (code, da, ra) in [
+                (1u8, DigestAlgorithm::SHA1, Some(&rd::SHA1_FOR_LEGACY_USE_ONLY)),
+                (2, DigestAlgorithm::SHA256, Some(&rd::SHA256)),
+                (4, DigestAlgorithm::SHA384, Some(&rd::SHA384)),
+                (3, DigestAlgorithm::GOST, None),
+            ] {
+                l.evals += 1;
+                let got = guard(|| k.dnskey.digest(&lname(&ol), da).map(|d| d.as_ref().to_vec()).map_err(|e| format!("{e:?}")));
+                let replay = json!({"part": "ds", "alg": k.alg, "owner": o, "digest_type": code});
+                match (got, ra) {
+                    (Err(p), _) => {
+                        env.ctx.violation(&format!("C12|ds-digest|panic|{}", panic_class(&p)), &format!("digest() panicked: {p}"), replay);
+                    }
+                    (Ok(Err(_)), None) => l.c("ds:unsupported-digest-type-refused"),
+                    (Ok(Ok(_)), None) => l.c("ds:gost-computed(not checked)"),
+                    (Ok(Err(e)), Some(_)) => {
+                        env.ctx.violation(&format!("C12|ds-digest|type={code}|error"), &format!("digest() = Err({e}) for digest type {code}"), replay);
+                    }
+                    (Ok(Ok(d)), Some(ra)) => {
+                        let mut input = name_wire(&lower_labels(&ol));
+                        input.extend_from_slice(&k.rdata);
+                        let want = rd::digest(ra, &input).as_ref().to_vec();
+                        env.stats.distinct(fnv(format!("ds|{}|{o}|{code}", k.alg).as_bytes()));
+                        if d != want {
+                            env.ctx.violation(
+                                &format!("C12|ds-digest|type={code}|differs-from-RFC4034-5.1.4"),
+                                &format!("digest({o}, type {code}) for the alg {} key = {}, independent = {}", k.alg, hex(&d), hex(&want)),
+                                replay,
+                            );
+                        } else {
+                            l.c("ds:agree");
+                        }
+                        // the .ds file shipped next to the key
+                        if let (Some(t), true) = (&k.ds_text, o == "test") {
+                            let tok: Vec<&str> = t.split_whitespace().collect();
+                            if let Some(di) = tok.iter().position(|x| *x == "DS") {
+                                if tok[di + 3].parse::<u8>().ok() == Some(code) {
+                                    let file = unhex(&tok[di + 4..].concat().to_lowercase());
+                                    let tag: u16 = tok[di + 1].parse().unwrap();
+                                    if file != want || tag != keytag_app_b(&k.rdata) || lower_labels(&k.owner_file) != labels("test") {
+                                        panic!("harness: .ds file of alg {} disagrees with the independent digest", k.alg);
+                                    }
+                                    l.c("ds:matches-.ds-file");
+                                }
+                            }
+                        }
+                    }
+                }
+            }
+        }
+    }
+}
+
+// ===================================================================
+// enumeration
+// ===================================================================
+
+fn seqs(k: usize, maxlen: usize) -> Vec<Vec<usize>> {
+    let alpha: Vec<usize> = (0..k).collect();
+    let mut out = Vec::new();
+    let mut buf = Vec::new();
+    for n in 1..=maxlen {
+        for i in 0..pow(k, n) {
+            nth_string(&alpha, n, i, &mut buf);
+            out.push(buf.clone());
+        }
+    }
+    out
+}
+
+fn build_env(ctx: Arc<Ctx>, quick: bool) -> (Env, Vec<KeyMat>) {
+    let sign_algs: &[(u8, u16)] = if quick { &[(13, 42253), (15, 56037)] } else { &[(8, 60616), (10, 46731), (13, 42253), (14, 33566), (15, 56037)] };
+    let keys: Vec<KeyMat> = sign_algs.iter().map(|&(a, t)| load_key(a, t, true)).collect();
+    // keys the ring backend cannot sign with still have a tag and a DS
+    let mut all_keys: Vec<KeyMat> = sign_algs.iter().map(|&(a, t)| load_key(a, t, true)).collect();
+    for (a, t) in [(5u8, 439u16), (7, 22204), (16, 7379)] {
+        all_keys.push(load_key(a, t, false));
+    }
+    if quick {
+        for (a, t) in [(8u8, 60616u16), (10, 46731), (14, 33566)] {
+            all_keys.push(load_key(a, t, false));
+        }
+    }
+    let env = Env { ctx, stats: Stats::new(), types: type_menu(quick), keys, times: time_menu(quick), verbose: false };
+    (env, all_keys)
+}
+
+fn run_all(env: &Env, cases: &[Case], f: impl Fn(&Env, &Case, &mut Local) + Sync) -> Local {
+    cases
+        .par_iter()
+        .with_max_len(8)
+        .fold(Local::default, |mut l, c| {
+            f(env, c, &mut l);
+            l
+        })
+        .reduce(Local::default, Local::merge)
+}
+
+fn sign_and_transform(env: &Env, c: &Case, l: &mut Local) {
+    if let Some(s) = sign_case(env, c, l) {
+        env.stats.sample(3, || {
+            json!({"case": c.json(env), "rrsig": s.sig.json(), "signed_octets_reference": hex(&s.refs[0]),
+                   "transforms_checked": transforms(&s).iter().map(|t| t.0.clone()).collect::<Vec<_>>()})
+        });
+        if env.verbose {
+            println!("signed: {}", s.sig.json());
+            println!("reference signed octets: {}", hex(&s.refs[0]));
+        }
+        check_transforms(env, c, &s, l);
+    }
+}
+
+fn main() {
+    let ctx = Ctx::new("C12", "fault_enumeration");
+    // ---------------- replay
+    if let Some(path) = ctx.replay.clone() {
+        let text = std::fs::read_to_string(&path).expect("replay file");
+        let v: Value = serde_json::from_str(&text).expect("replay json");
+        let case = &v["case"];
+        let inner = if case["part"] == "sign" { case.clone() } else { case["case"].clone() };
+        let tier_quick = inner["tier"].as_str().map(|t| t == "quick").unwrap_or(ctx.quick());
+        let (mut env, all_keys) = build_env(ctx.clone(), tier_quick);
+        env.verbose = true;
+        let mut l = Local::default();
+        match case["part"].as_str().unwrap_or("") {
+            "keytag" => keytag_checks(&env, &all_keys, tier_quick, &mut l),
+            "ds" => ds_checks(&env, &all_keys, &mut l),
+            part => {
+                let mut c = Case::from_json(&inner);
+                c.ti = env.types.iter().position(|t| Some(t.mn) == inner["type"].as_str()).expect("type in this tier's menu");
+                c.ki = env.keys.iter().position(|k| Some(k.alg as u64) == inner["alg"].as_u64()).expect("algorithm in this tier's menu");
+                println!("replaying {part}: {}", c.json(&env));
+                for r in c.rrs(&env) {
+                    println!("  rr: {}", r.json());
+                }
+                if part == "fault" {
+                    fault_case(&env, &c, &mut l);
+                } else {
+                    sign_and_transform(&env, &c, &mut l);
+                }
+            }
+        }
+        println!("counters: {}", json!(l.counts));
+        ctx.finish(
+            json!({"evaluations": l.evals.max(1), "distinct_nontrivial": env.stats.distinct_count(), "rule": "replay of one case", "samples": [v["case"].clone()], "exhaustive": false}),
+            &["replay"],
+        );
+    }
+    // ---------------- full run
+    let quick = ctx.quick();
+    let (env, all_keys) = build_env(ctx.clone(), quick);
+    let k = env.types[0].values.len();
+    let all_seqs = seqs(k, 3);
+    let nkeys = env.keys.len();
+    // P1: the records product
+    let mut p1: Vec<Case> = Vec::new();
+    for ti in 0..env.types.len() {
+        for seq in &all_seqs {
+            for oi in 0..OWNERS.len() {
+                let ocs: Vec<usize> = if seq.len() == 1 {
+                    vec![0, 1]
+                } else if quick {
+                    vec![0, 2]
+                } else {
+                    vec![0, 1, 2]
+                };
+                for oc in ocs {
+                    for ki in 0..nkeys {
+                        for entry in [1u8, 2, 3] {
+                            if entry == 3 && ki != nkeys - 1 {
+                                continue;
+                            }
+                            p1.push(Case { ti, seq: seq.clone(), oi, oc, ttl: 3600, tm: 0, si: 0, class: 1, ki, entry });
+                        }
+                    }
+                }
+            }
+        }
+    }
+    // P2: the envelope product
+    let reps: Vec<Vec<usize>> = vec![vec![0], vec![2, 0], vec![1, 2, 0]];
+    let classes: Vec<u16> = if quick { vec![1] } else { vec![1, 3] };
+    let mut p2: Vec<Case> = Vec::new();
+    for ti in 0..env.types.len() {
+        for seq in &reps {
+            for oi in 0..OWNERS.len() {
+                for ttl in [0u32, 3600] {
+                    for tm in 0..env.times.len() {
+                        for si in 0..SIGNER_NAMES.len() {
+                            for &class in &classes {
+                                for ki in 0..nkeys {
+                                    for entry in [1u8, 2] {
+                                        let c = Case { ti, seq: seq.clone(), oi, oc: 0, ttl, tm, si, class, ki, entry };
+                                        // already part of P1
+                                        if ttl == 3600 && tm == 0 && si == 0 && class == 1 {
+                                            continue;
+                                        }
+                                        p2.push(c);
+                                    }
+                                }
+                            }
+                        }
+                    }
+                }
+            }
+        }
+    }
+    // P3: fault enumeration bases (duplicate-free sequences)
+    let mut freps: Vec<Vec<usize>> = vec![vec![0], vec![2, 0]];
+    if !quick {
+        freps.push(vec![3, 0, 2]);
+    }
+    let mut p3: Vec<Case> = Vec::new();
+    for ti in 0..env.types.len() {
+        if env.types[ti].rtype == 46 {
+            continue;
+        }
+        for seq in &freps {
+            for oi in 0..OWNERS.len() {
+                for ki in 0..nkeys {
+                    p3.push(Case { ti, seq: seq.clone(), oi, oc: 0, ttl: 3600, tm: 0, si: 0, class: 1, ki, entry: 2 });
+                }
+            }
+        }
+    }
+    let t0 = std::time::Instant::now();
+    let mut total = Local::default();
+    keytag_checks(&env, &all_keys, quick, &mut total);
+    ds_checks(&env, &all_keys, &mut total);
+    let l1 = run_all(&env, &p1, sign_and_transform);
+    eprintln!("P1 done: {} cases, {} evaluations, {:.1}s", p1.len(), l1.evals, t0.elapsed().as_secs_f64());
+    let l2 = run_all(&env, &p2, sign_and_transform);
+    eprintln!("P2 done: {} cases, {} evaluations, {:.1}s", p2.len(), l2.evals, t0.elapsed().as_secs_f64());
+    let l3 = run_all(&env, &p3, fault_case);
+    eprintln!("P3 done: {} cases, {} evaluations, {:.1}s", p3.len(), l3.evals, t0.elapsed().as_secs_f64());
+    let (e1, e2, e3) = (l1.evals, l2.evals, l3.evals);
+    let total = total.merge(l1).merge(l2).merge(l3);
+    let counters = &total.counts;
+    let sum = |p: &str| -> u64 { counters.iter().filter(|(k, _)| k.contains(p)).map(|(_, v)| *v).sum() };
+    ctx.finish(
+        json!({
+            "evaluations": total.evals,
+            "distinct_nontrivial": env.stats.distinct_count(),
+            "rule": "distinct (hash of the case) among: signing cases where the signer produced an RRSIG that passed the field checks and verifies over the independent octets with ring; bit flips after which the library could still read the records (verification was decided); synthetic DNSKEY RDATA whose tag was compared; (key, owner, digest type) triples whose digest was compared",
+            "exhaustive": true,
+            "bound": {
+                "types": env.types.iter().map(|t| t.mn).collect::<Vec<_>>(),
+                "values_per_type": k,
+                "sequences_per_type": all_seqs.len(),
+                "owners": OWNERS,
+                "algorithms": env.keys.iter().map(|k| k.alg).collect::<Vec<_>>(),
+                "time_menu": env.times.iter().map(|t| json!([t.0, t.1, format!("{:?}", t.2)])).collect::<Vec<_>>(),
+                "P1_records_product_cases": p1.len(),
+                "P2_envelope_product_cases": p2.len(),
+                "P3_fault_base_cases": p3.len(),
+                "P1_evaluations": e1, "P2_evaluations": e2, "P3_evaluations(bit flips + base)": e3,
+            },
+            "signed": sum("signer:signed:"),
+            "verified_after_legit_transform": sum("verify:ok-after-legit-transform"),
+            "faults_same_octets_must_verify": sum(":same-octets,verifies"),
+            "faults_altered_must_fail": sum(":altered,rejected"),
+            "faults_unreadable": sum(":unreadable-by-library") + sum(":ref-unreadable,lib-rejects"),
+            "counters": counters,
+            "samples": env.stats.samples(),
+        }),
+        &[
+            "keys: only the fixed key files of /repo/test-data/dnssec-keys (one key per algorithm); signing algorithms limited to what the ring backend imports (8, 10, 13, 14, 15)",
+            "P1 (all sequences x owners x owner case x algorithms x entry points) is run at TTL 3600 / first validity period / signer 'z.' / class IN; P2 crosses TTL, validity period, signer-name case and class with three representative sequences per type; sign_sorted_zone_records (entry 3) is run with the last algorithm of the menu only",
+            "fault enumeration bases: duplicate-free sequences [v0], [v2,v0] (and [v3,v0,v2] thorough), lower-case owners; flips are single-bit; DNSKEY flags/protocol flips are recorded but not judged (not key material, not read by the primitives)",
+            "NSEC: RFC 4034 6.2 (lower-case next name) and RFC 6840 5.1 (keep case) are both accepted",
+            "a record TTL above the original TTL is not a covered-field alteration; such flips are expected to verify like any other TTL change",
+        ],
+    );
+}
